@@ -236,6 +236,44 @@ func genWriters(root *pkgSrc) {
 		}
 	}
 	fmt.Fprintf(&b, "def stdioTwoWrites : Bool := %s\n", leanBool(two))
+	// stdioTransport.writeResponse: the write calls that EVERY execution reaches — statements of the function body itself
+	// (an `if _, err := writer.Write(…); err != nil {…}` counts: its Init is unconditional) — and whether one of them
+	// writes the frame terminator. A terminator written inside a loop or under a condition (`if len(data) > 0`) is lost
+	// for some message lengths, and two frames merge.
+	uncond, nl := 0, false
+	if fd, _ := root.funcDecl("stdioTransport.writeResponse"); fd != nil && fd.Body != nil {
+		check := func(e ast.Expr) {
+			call, ok := e.(*ast.CallExpr)
+			if !ok {
+				return
+			}
+			txt := rpcSquash(root.text(call))
+			if strings.HasPrefix(txt, "writer.Write(") {
+				uncond++
+				if strings.Contains(txt, `"\n"`) || strings.Contains(txt, `'\n'`) {
+					nl = true
+				}
+			}
+		}
+		for _, st := range fd.Body.List {
+			switch x := st.(type) {
+			case *ast.ExprStmt:
+				check(x.X)
+			case *ast.AssignStmt:
+				for _, r := range x.Rhs {
+					check(r)
+				}
+			case *ast.IfStmt:
+				if as, ok := x.Init.(*ast.AssignStmt); ok {
+					for _, r := range as.Rhs {
+						check(r)
+					}
+				}
+			}
+		}
+	}
+	fmt.Fprintf(&b, "/-- `stdioTransport.writeResponse`: write calls every execution reaches (statements of the body itself) -/\ndef stdioUnconditionalWrites : Nat := %d\n", uncond)
+	fmt.Fprintf(&b, "/-- …and one of them writes the LF that ends the frame -/\ndef stdioTerminatorUnconditional : Bool := %s\n", leanBool(nl))
 	// every function of the package that writes an event on a GET stream's connection (conn.sseResponder.send…):
 	// all of them must be in the writer table above
 	var sites []string
